@@ -89,9 +89,16 @@ def run_case(ctx, g, rng):
 
         fapp_ = flask.Flask("users_own_app")
         fapp_.register_blueprint(get_flask_blueprint(conv))
-        fl = fapp_.test_client()
         aapp_ = fastapi.FastAPI()
         aapp_.include_router(get_fastapi_router(conv))
+        if rng.random() < 0.6:
+            # a second resolver, for another converter, mounted on the same apps under /alt: the first one still
+            # answers for its own converter
+            other = api.Converter.from_prefix_map({"zzalt": "http://zz.alt/", recs[0].prefix: "http://zz.alt/shadow_"}, delimiter=d)
+            fapp_.register_blueprint(get_flask_blueprint(other), url_prefix="/alt", name="alt")
+            aapp_.include_router(get_fastapi_router(other), prefix="/alt")
+            S.counters["wl:second-resolver-mounted-on-the-same-app"] += 1
+        fl = fapp_.test_client()
         fa = TestClient(aapp_, raise_server_exceptions=False)
     known = [p for r in recs for p in spec.all_p(r)]
     w0 = {"records": [spec.rec_dict(r) for r in recs], "delimiter": d}
